@@ -6,7 +6,7 @@ import gen_run
 import run_cluster as R
 
 PROP = "C14"
-CONE = sorted(set(K.MODEL_FILES + E.MODEL_FILES + R.MODEL_FILES + ["Gen/Generated.v"] + ['Proofs/CheckerFrame.v', 'Proofs/CheckerProps.v', 'Props/C14.v']))
+CONE = sorted(set(K.MODEL_FILES + E.MODEL_FILES + R.MODEL_FILES + ["Model/Ctor.v", "Spec/CtorCase.v", "Gen/Generated.v"] + ['Proofs/CheckerFrame.v', 'Proofs/CheckerProps.v', 'Props/C14.v']))
 RULE_E = 'histories of 2-6 definitions: module-level functions with stacks of 0-4 decorators (require / ensure / snapshot, enabled or not, foreign functools.wraps decorators, invalid decorators), classes on DBC or not with single or multiple bases, members f/g/p/__init__/__new__/__setattr__/_priv/__repr__ of kinds method, static, class method, property get/set/del, class invariants with check_on CALL/SETATTR/ALL; after each step every earlier function and class is viewed through find_checker and the list attributes (contents and identity of the invariant lists); seeded. distinct = distinct final views.'
 RULE_C = 'checker-cluster cases as for C01 (all callable kinds x sync/async, chains of 1-3 classes, faults); seeded.'
 
@@ -32,9 +32,14 @@ def run(tier, replay=None):
     rp = __import__("json").load(open(replay)).get("case", {}) if replay else {}
     is_run_replay = "prog" in rp
     is_elab_replay = bool(replay) and "ops" in rp and not is_run_replay
+    is_ctor_replay = "chain" in rp
+    if not replay or is_ctor_replay:
+        # constructing an instance of a class of a chain (constructors, __new__ with an argument): as the bare classes would
+        import ctor_cluster as T
+        T.run_into(out, build, problems, PROP, tier, replay=replay, n_quick=300, n_thorough=8000)
     if not replay or is_run_replay:
         R.run_into(out, build, problems, PROP, tier, "spec_C14_run", gen_run_cases, 500, 12000, RULE_R, replay=replay)
-    if not replay or not (is_elab_replay or is_run_replay):
+    if not replay or not (is_elab_replay or is_run_replay or is_ctor_replay):
         K.run_into(out, build, problems, PROP, tier, ['spec_C14'], lambda rng, n: G.gen_many(rng, n), 1200, 25000, RULE_C,
                    replay=replay)
     if not replay or is_elab_replay:
